@@ -60,6 +60,8 @@ def cascade(check: Check) -> None:
             return bool(t[1][1][2]) and is_result(t[1][1][2][0])
         if t[0] == "phi":
             return any(is_result(a_) for a_ in t[1])
+        if t[0] == "ifexp":
+            return is_result(t[2]) or is_result(t[3])
         if t[0] == "call" and t[1][0] == "global" and t[1][1] in ("numpy.where", "numpy.nan_to_num", "numpy.clip", "numpy.copy"):
             return any(s_ == dterm for s_ in walk(t))
         return False
